@@ -7,7 +7,7 @@ from common import R, Rmat, fl, flmat, max_rel_err
 
 from common import wiring_pre_build as pre_build  # noqa: E402,F401
 
-LEAN_MODULES = ["PyomaVerif.Props.C12", "PyomaVerif.Props.C12Dat", "PyomaVerif.Props.WiringRun", "PyomaVerif.Props.WiringStore", "PyomaVerif.Props.WiringClass", "PyomaVerif.Props.WiringCalls"]
+LEAN_MODULES = ["PyomaVerif.Props.C12", "PyomaVerif.Props.C12Dat", "PyomaVerif.Props.C12Build", "PyomaVerif.Props.WiringRun", "PyomaVerif.Props.WiringStore", "PyomaVerif.Props.WiringClass", "PyomaVerif.Props.WiringCalls"]
 THEOREMS = [
     # call-site wiring of the class layer, regenerated from /repo on every run (translate_wiring.py)
     "PV.WiringRun.C12_run_build_hank",
@@ -42,6 +42,20 @@ THEOREMS = [
     "PV.C12.C12_dat_rank_needed",
     "PV.C12.exA_qr",
     "PV.C12.exB_qr",
+    # build_hank as ONE model function (Model/BuildHank.buildHank: N as a Python int, dispatch on the method string, the
+    # weights 1/N and 1/(Ndat-k) computed IN the model, every exception): op build_hank, streams build_hank[dispatch|short|whole]
+    "PV.C12.C12_dispatch_attrUnc",
+    "PV.C12.C12_dispatch_attrMethod",
+    "PV.C12.C12_dispatch",
+    "PV.C12.buildHank_err_cases",
+    "PV.C12.C17_unc_only_cov_mm",
+    "PV.C12.C12_R_zeroDiv_iff",
+    "PV.C12.C12_R_entry_N",
+    "PV.C12.hankStacks_long",
+    "PV.C12.C12_mm_entry_N",
+    "PV.C12.C12_mm_returns",
+    "PV.C12.C12_short_zeroDiv",
+    "PV.C12.C17_build_factor",
 ]
 RULE = (
     "correspondence: random (channels 1..5, reference subset, br 1..5, length <= 60) records with float or small-integer "
@@ -50,7 +64,12 @@ RULE = (
     "construction. distinct = distinct (method, l, r, br, Ndat) shapes. build_hank[dat-recorded]: np.linalg.qr wrapped, its "
     "argument compared EXACTLY with the model's stacked matrix hankYs (times the float 1/N**0.5), its recorded output R "
     "handed to the model's hankDat and compared EXACTLY (shape and entries) with the returned matrix, for every record "
-    "length (fewer samples than past rows, between past and all rows, more), duplicated / constant reference channels"
+    "length (fewer samples than past rows, between past and all rows, more), duplicated / constant reference channels. "
+    "build_hank[dispatch|short|whole]: the WHOLE function against the model function buildHank (driver scalars a+b*sqrt(N), so "
+    "1/N**0.5 sits inside each stacked factor as in the code): method strings valid and malformed x calc_unc in {False, True, 1}; "
+    "every record length 0..2br+3 (N negative: complex zeros / ValueError / UFuncTypeError; N = 0: ZeroDivisionError; N = 1, 2); "
+    "random records with nb = 0, 1, 2.., > N: same exception CLASS (the two AttributeErrors told apart), same matrix at 1e-12, same "
+    "real/complex dtype class, same second component (None / no finite entry / T at 1e-11), same np.linalg.qr argument (8 ulp)"
 )
 EXTRA_TRUSTED = [
     "np.linalg.qr contract (orthonormal Q, triangular R) for the 'dat' method = PV.C12.QrRec; on every recorded output the "
